@@ -648,9 +648,7 @@ class ExcludeRegionState(object):  # pylint: disable=too-many-instance-attribute
             these commands are sent to the printer.
         """
         isDebug = self._logger.isEnabledFor(logging.DEBUG)
-        startPosition = None
-        if (isDebug):
-            startPosition = Position(self.position)
+        startPosition = Position(self.position)
 
         eAxis = self.position.E_AXIS
         priorE = eAxis.current
@@ -697,7 +695,11 @@ class ExcludeRegionState(object):  # pylint: disable=too-many-instance-attribute
             # for Marlin 1.1.9).
             returnCommands = self._processNonMove(cmd, deltaE)
         elif (self.isAnyPointExcluded(*xyPairs)):
+            wasExcluding = self.excluding
             returnCommands = self._processExcludedMove(cmd, deltaE)
+            if (self.excluding and not wasExcluding):
+                # The tool is still where it was before this (suppressed) move was applied
+                self.lastPosition = startPosition
         elif (self.excluding):
             # Moving from an excluded region into a non-excluded region.
             # Processes the necessary commands to move the tool to the new position specified by the
@@ -821,11 +823,12 @@ class ExcludeRegionState(object):  # pylint: disable=too-many-instance-attribute
             "G92 E{e}".format(e=self.position.E_AXIS.nativeToLogical())
         )
 
-        newZ = self.position.Z_AXIS.nativeToLogical()
-        oldZ = self.lastPosition.Z_AXIS.nativeToLogical()
+        # Compare native (mm) Z values, since the units may have changed while excluding
+        newZ = self.position.Z_AXIS.current
+        oldZ = self.lastPosition.Z_AXIS.current
         moveZcmd = "G0 F{f} Z{z}".format(
             f=self.feedRate / self.feedRateUnitMultiplier,
-            z=newZ
+            z=self.position.Z_AXIS.nativeToLogical()
         )
 
         if (newZ > oldZ):
